@@ -30,6 +30,8 @@ const EVENTS: &[&str] = &[
     "L HSET h f v g w i x", "L HDEL h g",
     // a local command that empties the keyspace: what the node has observed stays observed
     "L FLUSHALL",
+    // a stamp far beyond anything a plausibility bound would accept (2^40): clocks of long-lived clusters get there
+    "R 2 huge",
     // 300 writes of 300 other keys: what is recovered afterwards is far more than any batching or chunking constant
     "L BULK 300",
 ];
@@ -84,6 +86,7 @@ fn remote_delta(replica: u64, kind: &str, local_time_of_k: u64) -> ReplicationDe
     let time = match kind {
         "small" => 1,
         "equal" => local_time_of_k.max(1),
+        "huge" => 1 << 40,
         _ => 1_000_000,
     };
     let stamp = LamportClock { time, replica_id: r };
